@@ -257,6 +257,21 @@ PROPS = {
         "technique": "offline trace checker + paired-execution comparator on monitor sinks",
         "jobs": [{"pkg": "motion", "test": "TestVerif_C17", "shards": (16, 16), "timeout": (300, 2400), "require": ["continuous_files", "test_recordings_completed", "test_recordings_overlapping_motion_recording"]}],
     },
+    "C18": {
+        "title": "thermal-writer stores every frame once, in order, in well-formed CPTR files",
+        "level": "exploration",
+        "rule": "Under -race: real thermal-writer handleConn(conn, conf, false) over net.Pipe with a fresh output directory per connection. Grid: frame sizes {5,16,1000,39040,655360} x frame counts {0,1,255,256,257,2000 (300 for the largest)} x "
+                "hook schedules {none, writer stalled until all 256 buffers are in flight, reader stalled, alternating, random us sleeps/Gosched}, connection closed between frames or in mid-frame, socket writes whole / 1 byte / random; "
+                "plus seeded random cases; GOMAXPROCS in {1,2,4,16}; thorough adds one 65 s trickle run across the one-minute file rotation. Frames are id-stamped PRNG blocks. "
+                "Oracles: independent CPTR parser (magic, version 2, header fields T/E/B/Z/X/Y/C=0/D/I, then F sections with one length field, no trailing bytes); concatenated payloads == frames sent (count, order, bytes); partial last frame not stored; "
+                "event-log conservation at hooks (filled = written + in flight <= 256; at writer exit written == queued); handleConn and writer must finish; race detector. A connection is a case.",
+        "assumptions": COMMON_ASSUME + ["writer() panics on I/O errors by design; disk-full behaviour is not in the property", "file names have 1 s resolution: one output directory per connection"],
+        "level_text": "Offline file checker + event-log conservation check + race detector over a grid of sizes/counts/stall schedules that drives the backlog to the 256-buffer limit.",
+        "level_note": "Interleavings are sampled through hook-injected stalls and GOMAXPROCS variation, not enumerated.",
+        "technique": "offline file checker + hook-based conservation monitor + Go race detector",
+        "jobs": [{"pkg": "writer-main", "test": "TestVerif_C18", "race": True, "shards": (16, 16), "gomaxprocs": [1, 2, 4, 16], "timeout": (900, 3000), "hang_is_violation": True,
+                  "require": ["connections", "frames_verified", "buffers_recycled", "runs_reaching_256_in_flight"]}],
+    },
     "C19": {
         "title": "Frame ring buffer returns exactly the retained history, oldest first",
         "level": "exploration",
